@@ -27,30 +27,11 @@ import (
 
 	seccomp "github.com/elastic/go-seccomp-bpf"
 	"github.com/elastic/go-seccomp-bpf/arch"
-	"golang.org/x/net/bpf"
+
+	"verifharness/progset"
 )
 
-func basePolicy(k int) seccomp.Policy {
-	names := make([]string, 0, 16) // spare capacity on purpose
-	names = append(names, "write", "read", "open", "close", "execve")
-	if k%2 == 1 {
-		names = append(names, "fork", "vfork")
-	}
-	conds := make([]seccomp.Condition, 0, 8)
-	conds = append(conds, seccomp.Condition{Argument: 3, Operation: seccomp.Equal, Value: uint64(k)},
-		seccomp.Condition{Argument: 1, Operation: seccomp.BitsSet, Value: 0x10000000},
-		seccomp.Condition{Argument: 2, Operation: seccomp.LessThan, Value: 77},
-		seccomp.Condition{Argument: 0, Operation: seccomp.NotEqual, Value: 5}) // (arguments deliberately not in ascending order)
-	nwc := make([]seccomp.NameWithConditions, 0, 4)
-	nwc = append(nwc, seccomp.NameWithConditions{Name: "clone", Conditions: conds},
-		seccomp.NameWithConditions{Name: "clone", Conditions: []seccomp.Condition{{Argument: 2, Operation: seccomp.GreaterThan, Value: 7}}},
-		seccomp.NameWithConditions{Name: "ioctl", Conditions: conds[:1]})
-	groups := make([]seccomp.SyscallGroup, 0, 4)
-	groups = append(groups, seccomp.SyscallGroup{Names: names, Action: seccomp.ActionErrno},
-		seccomp.SyscallGroup{NamesWithCondtions: nwc, Action: seccomp.ActionKillProcess},
-		seccomp.SyscallGroup{Names: []string{"socket", "bind", "listen"}, Action: seccomp.ActionTrap})
-	return seccomp.Policy{DefaultAction: seccomp.ActionAllow, Syscalls: groups}
-}
+func basePolicy(k int) seccomp.Policy { return progset.BasePolicy(k) }
 
 // snapshot captures everything reachable from the exported fields, including
 // the capacity tails of all slices.
@@ -89,21 +70,7 @@ func snap(p *seccomp.Policy) snapshot {
 	return snapshot{p.DefaultAction, snapGroups(p.Syscalls), snapGroups(p.Syscalls[len(p.Syscalls):cap(p.Syscalls)])}
 }
 
-func compileBytes(p *seccomp.Policy) ([]byte, error) {
-	insts, err := p.Assemble()
-	if err != nil {
-		return nil, err
-	}
-	raw, err := bpf.Assemble(insts)
-	if err != nil {
-		return nil, err
-	}
-	var b bytes.Buffer
-	for _, r := range raw {
-		fmt.Fprintf(&b, "%04x %02x %02x %08x\n", r.Op, r.Jt, r.Jf, r.K)
-	}
-	return b.Bytes(), nil
-}
+func compileBytes(p *seccomp.Policy) ([]byte, error) { return progset.CompileBytes(p) }
 
 func dumpBytes(p *seccomp.Policy) ([]byte, error) {
 	var b bytes.Buffer
@@ -284,19 +251,7 @@ func textForms(bad func(string)) {
 // programs: the compilation of a fixed set of policies for each syscall table, as text. It does not depend on the machine the
 // process runs on (no lookup of the running architecture), so two builds of this command for different CPU targets must
 // print the same thing (C19: "a policy compiles to the same program wherever it is compiled for a given syscall table").
-func programs() map[string]string {
-	out := map[string]string{}
-	for k := 0; k < 4; k++ {
-		for _, a := range []*arch.Info{arch.X86_64, arch.I386, arch.ARM, arch.AARCH64} {
-			p := basePolicy(k)
-			seccomp.VerifSetArch(&p, a)
-			b, err := compileBytes(&p)
-			h := sha256.Sum256(b)
-			out[fmt.Sprintf("policy %d for %s", k, a.Name)] = fmt.Sprintf("%x err=%v", h[:8], err)
-		}
-	}
-	return out
-}
+func programs() map[string]string { return progset.Programs() }
 
 func digest() string {
 	h := sha256.New()
